@@ -438,10 +438,16 @@ func (p *Prog) serialLocks() (map[*types.Var]string, map[*types.Var]map[*Func]bo
 	add(p.Fn("Client.Start"), "Start/Client() are serialised under the client lock by design; their waits are bounded by StartTimeout and the exit context (R-BOUND decides that)")
 	add(p.Fn("Client.Client"), "Start/Client() are serialised under the client lock by design; the connect path contains no unbounded wait")
 	if md := p.Fn("GRPCBroker.muxDial"); md != nil {
+		nLit := 0
 		for _, lf := range p.Funcs {
 			if lf.Lit != nil && lf.Parent == md {
+				nLit++
 				add(lf, "exists to serialise knock+dial of multiplexed connections (R-MUXSER requires it); the waits under it have a 5 s timer or the broker's quit arm")
 			}
+		}
+		if nLit == 0 {
+			// muxDial is the dial step itself (its caller wraps it in the dialer closure)
+			add(md, "exists to serialise knock+dial of multiplexed connections (R-MUXSER requires it); the waits under it have a 5 s timer or the broker's quit arm")
 		}
 	}
 	return out, holders
